@@ -454,3 +454,22 @@ fn c12_size_and_is_empty_agree() {
     assert!(t.size() == if second { 2 } else { 1 } && !t.is_empty(), "C12: size counts every entry; is_empty <=> size == 0");
     core::mem::forget(t);
 }
+
+/// C20: re-keying the table (after the public address was confirmed) must not touch the lookup
+/// statistics: they mirror Core::cached_iterative_queries, which re-keying does not change.
+/// (Empty table: the 160-step bucket scan is then cheap; that the nodes are re-admitted is
+/// c12_reset_id_rebuilds_the_table_through_add.)
+#[kani::proof]
+#[kani::unwind(163)]
+#[kani::stub(std::time::Instant::now, clock::mock_now)]
+#[kani::stub(std::time::Instant::elapsed, clock::mock_elapsed)]
+fn c20_reset_id_keeps_the_statistics() {
+    let mut t = RoutingTable::new(idb(0, 0, 0));
+    let (c0, r0, sn0): (usize, usize, usize) = (kani::any(), kani::any(), kani::any());
+    let (a, b): (u16, u16) = (kani::any(), kani::any());
+    set_stats(&mut t, (c0, a as f64, r0, b as f64, sn0));
+    t.reset_id(idb(kani::any(), 3, 0));
+    assert!(stats(&t) == (c0, a as f64, r0, b as f64, sn0), "C20: the statistics still equal the aggregate over the cached lookups after the table was re-keyed");
+    assert!(t.size() == 0);
+    core::mem::forget(t);
+}
